@@ -111,7 +111,11 @@ func genCNFLayout(t *rapid.T, nClauses int) texts.CNFLayout {
 func genCNF(reader string) func(t *rapid.T) CNFCase {
 	return func(t *rapid.T) CNFCase {
 		c := CNFCase{Reader: reader}
-		c.N, c.Clauses = gen.SmallCNF(t, gen.CNFOpts{MinN: 1, MaxN: 8, MaxRatio: 2, MaxLen: 4, AllowEmpty: true, AllowDup: true, AllowUnit: true, UnusedVarSlack: true})
+		if gen.Chance(t, 1, 4, "chain") {
+			c.N, c.Clauses = gen.PropagationChain(t, 2, 8)
+		} else {
+			c.N, c.Clauses = gen.SmallCNF(t, gen.CNFOpts{MinN: 1, MaxN: 8, MaxRatio: 2, MaxLen: 4, AllowEmpty: true, AllowDup: true, AllowUnit: true, UnusedVarSlack: true})
+		}
 		c.Layout = genCNFLayout(t, len(c.Clauses))
 		return c
 	}
